@@ -95,9 +95,12 @@ fn progress_done() {
 /// and the process exits.
 pub fn spawn_watchdog(prop: String, tier: String, seed: u64, out: String, limit: std::time::Duration) {
     std::thread::spawn(move || loop {
-        std::thread::sleep(std::time::Duration::from_secs(2));
+        std::thread::sleep(std::time::Duration::from_millis(500));
         let stuck = {
             let g = PROGRESS.lock().unwrap();
+            // what is in flight, for the case where the library takes the whole process down (abort, stack overflow)
+            let inflight: Vec<Vec<String>> = g.iter().map(|e| e.1[..=e.2.min(e.1.len().saturating_sub(1))].to_vec()).filter(|l| l.len() < 400).collect();
+            let _ = std::fs::write(format!("{out}.progress"), serde_json::to_string(&inflight).unwrap_or_default());
             g.iter().find(|e| e.3.elapsed() > limit).map(|e| (e.1.clone(), e.2))
         };
         if let Some((lines, i)) = stuck {
